@@ -495,9 +495,14 @@ fn produce_create_jws(signers: &[Signer], si: usize, faulty: bool) -> Option<Not
   if ctx::choose(4) == 0 {
     opts = opts.url(identity_core::common::Url::parse("https://notice.example/a").unwrap());
   }
-  let kid_override = ctx::choose(5) == 0;
-  if kid_override {
-    opts = opts.kid("custom-kid".to_owned());
+  // kid override: an opaque string, or something that names ANOTHER method of the same document (the token is still
+  // requested for, and must be signed by, the method identified by the fragment argument)
+  match ctx::choose(8) {
+    0 => opts = opts.kid("custom-kid".to_owned()),
+    1 => opts = opts.kid(format!("{}#second", s.did)),
+    2 => opts = opts.kid("#second".to_owned()),
+    3 => opts = opts.kid("second".to_owned()),
+    _ => {}
   }
   if ctx::choose(4) == 0 {
     let mut m = std::collections::BTreeMap::new();
